@@ -670,20 +670,7 @@ impl ShardSplitter {
         batch: &RecordBatch,
         split_point: &[u8],
     ) -> Result<(RecordBatch, RecordBatch)> {
-        let ts_column = batch
-            .column_by_name("timestamp")
-            .ok_or_else(|| crate::Error::Internal("Missing timestamp column".to_string()))?;
-
-        let ts_array = if let DataType::Int64 = ts_column.data_type() {
-            ts_column
-                .as_any()
-                .downcast_ref::<arrow::array::Int64Array>()
-                .ok_or_else(|| crate::Error::Internal("Timestamp not Int64".to_string()))?
-        } else {
-            return Err(crate::Error::Internal(
-                "Timestamp column is not Int64".to_string(),
-            ));
-        };
+        let timestamps = Self::timestamp_values(batch)?;
 
         let mut indices_a = Vec::new();
         let mut indices_b = Vec::new();
@@ -694,8 +681,7 @@ impl ShardSplitter {
                 .map_err(|_| crate::Error::Internal("Invalid split point".to_string()))?,
         );
 
-        for i in 0..batch.num_rows() {
-            let ts = ts_array.value(i);
+        for (i, &ts) in timestamps.iter().enumerate() {
             if ts < split_ts {
                 indices_a.push(i as u32);
             } else {
@@ -731,22 +717,9 @@ impl ShardSplitter {
             .put(&object_path, Bytes::from(buffer).into())
             .await?;
 
-        let ts_column = batch
-            .column_by_name("timestamp")
-            .ok_or_else(|| crate::Error::Internal("Missing timestamp column".to_string()))?;
-        let ts_array = ts_column
-            .as_any()
-            .downcast_ref::<arrow::array::Int64Array>()
-            .ok_or_else(|| crate::Error::Internal("Timestamp not Int64".to_string()))?;
-
-        let min_timestamp = (0..batch.num_rows())
-            .map(|i| ts_array.value(i))
-            .min()
-            .unwrap_or(0);
-        let max_timestamp = (0..batch.num_rows())
-            .map(|i| ts_array.value(i))
-            .max()
-            .unwrap_or(0);
+        let timestamps = Self::timestamp_values(&batch)?;
+        let min_timestamp = timestamps.iter().copied().min().unwrap_or(0);
+        let max_timestamp = timestamps.iter().copied().max().unwrap_or(0);
 
         let metadata = ChunkMetadata {
             path: path.to_string(),
@@ -758,6 +731,37 @@ impl ShardSplitter {
         self.metadata.register_chunk(path, &metadata).await?;
 
         Ok(())
+    }
+
+    /// Nanosecond values of a batch's timestamp column, which is either Int64 or
+    /// Timestamp(Nanosecond) (what the ingest protocols produce).
+    fn timestamp_values(batch: &RecordBatch) -> Result<Vec<i64>> {
+        let ts_column = batch
+            .column_by_name("timestamp")
+            .ok_or_else(|| crate::Error::Internal("Missing timestamp column".to_string()))?;
+
+        match ts_column.data_type() {
+            DataType::Int64 => {
+                let array = ts_column
+                    .as_any()
+                    .downcast_ref::<arrow::array::Int64Array>()
+                    .ok_or_else(|| crate::Error::Internal("Timestamp not Int64".to_string()))?;
+                Ok((0..array.len()).map(|i| array.value(i)).collect())
+            }
+            DataType::Timestamp(arrow::datatypes::TimeUnit::Nanosecond, _) => {
+                let array = ts_column
+                    .as_any()
+                    .downcast_ref::<arrow::array::TimestampNanosecondArray>()
+                    .ok_or_else(|| {
+                        crate::Error::Internal("Timestamp not Timestamp(Nanosecond)".to_string())
+                    })?;
+                Ok((0..array.len()).map(|i| array.value(i)).collect())
+            }
+            other => Err(crate::Error::Internal(format!(
+                "Timestamp column must be Int64 or Timestamp(Nanosecond), got {:?}",
+                other
+            ))),
+        }
     }
 
     fn backfill_chunk_path(
